@@ -418,8 +418,108 @@ func genC06Frame(t *rapid.T) ([]byte, bool) {
 	}
 }
 
+// ---- whatever is accepted is well-formed ---------------------------------------------------
+
+// c06Accept is one well-framed frame obtained by damaging a valid encoding of Kind: fields
+// overwritten with boundary values, words cut off or appended (length field adjusted), the P bit
+// flipped. "If any frame is malformed ... an error and no packets": if the library accepts the
+// frame - through the type's own decoder, or through rtcp.Unmarshal when it dispatches there - then the
+// frame must be well-formed, i.e. the reference decoder, reading it as a tolerant receiver
+// (surplus octets and non-zero padding allowed), must find its counts and lengths consistent.
+type c06Accept struct {
+	Kind  m.Kind
+	Muts  []string
+	Frame m.Bytes
+}
+
+var subC06Accept = harness.NewSub("c06-accepted-frame-is-well-formed", func(c c06Accept, _ harness.Dialect) error {
+	if fr, err := m.SplitFrames(c.Frame); err != nil || len(fr) != 1 {
+		return nil // not one well-framed frame: the framing oracle's business
+	}
+	_, rerr := m.DecodeFrameLenient(c.Frame, c.Kind, gen.PionDialect)
+	if rerr == nil {
+		return nil
+	}
+	var perr error
+	if p := harness.Guard(func() error { perr = conv.New(c.Kind).Unmarshal(exactCopy(c.Frame)); return nil }); p != nil {
+		return fmt.Errorf("%s.Unmarshal panicked: %v\nframe: %s", conv.GoType(c.Kind), p, hexs(c.Frame))
+	}
+	if perr == nil {
+		return fmt.Errorf("%s.Unmarshal accepted a frame that is not a well-formed packet of its type (%v)\nframe: %s\nderived from a valid encoding by: %v", conv.GoType(c.Kind), rerr, hexs(c.Frame), c.Muts)
+	}
+	if m.Dispatch(c.Frame[1], c.Frame[0]&0x1f, gen.PionDialect) == c.Kind {
+		if ps, err := safeUnmarshal(exactCopy(c.Frame)); err == nil {
+			return fmt.Errorf("rtcp.Unmarshal accepted a %s frame that is not a well-formed packet of its type (%v): %d packets\nframe: %s", c.Kind, rerr, len(ps), hexs(c.Frame))
+		}
+	}
+	return nil
+})
+
+func genC06Accept(t *rapid.T) c06Accept {
+	k := rapid.SampledFrom(m.TypedKinds).Draw(t, "accept.kind")
+	p := gen.PacketOf(t, k)
+	shrinkBig(p)
+	e, err := m.Encode(c06Readable(p), &m.EncOpts{D: gen.PionDialect})
+	if err != nil {
+		panic(err)
+	}
+	b := e.B
+	if len(b) > 1200 {
+		// keep the damaged frames small (the big ones are C01's and C04's business): a frame of
+		// random words under the type's own header instead
+		pt, fm, _ := m.PTFMT(k, gen.PionDialect)
+		words := rapid.IntRange(1, 12).Draw(t, "words")
+		b = append([]byte{0x80 | fm, pt, 0, byte(words)}, gen.BytesN(t, 4*words, "body")...)
+	}
+	c := c06Accept{Kind: k}
+	fix := func() {
+		w := len(b)/4 - 1
+		b[2], b[3] = byte(w>>8), byte(w)
+	}
+	for i := rapid.IntRange(1, 3).Draw(t, "nmut"); i > 0; i-- {
+		switch rapid.IntRange(0, 4).Draw(t, "mut") {
+		case 0, 1:
+			c.Muts = append(c.Muts, "field:"+gen.MutateField(t, b))
+		case 2:
+			if len(b) > 8 {
+				cut := rapid.IntRange(1, (len(b)-4)/4).Draw(t, "cut")
+				b = b[:len(b)-4*cut]
+				fix()
+				c.Muts = append(c.Muts, fmt.Sprintf("cut %d words", cut))
+			}
+		case 3:
+			add := rapid.IntRange(1, 3).Draw(t, "add")
+			b = append(b, gen.BytesN(t, 4*add, "added")...)
+			fix()
+			c.Muts = append(c.Muts, fmt.Sprintf("appended %d words", add))
+		case 4:
+			b[0] ^= 0x20
+			c.Muts = append(c.Muts, "P bit flipped")
+		}
+	}
+	c.Frame = b
+	return c
+}
+
 func TestC06(t *testing.T) {
 	defer harness.Uncaught(t)
+	harness.RapidCheck(t, harness.Scale(6000, 60000), 67, func(rt *rapid.T) {
+		c := genC06Accept(rt)
+		harness.Eval(subC06Accept.Name, 1)
+		_, rerr := m.DecodeFrameLenient(c.Frame, c.Kind, gen.PionDialect)
+		if rerr != nil {
+			// the implication is exercised when the frame is in fact inconsistent
+			harness.Class("damaged-inconsistent:"+string(c.Kind), 1)
+			h := harness.HashBytes(c.Frame)
+			harness.NonTrivialHash(h)
+			if len(c.Frame) <= 48 {
+				harness.Sample(subC06Accept.Name, h, c)
+			}
+		} else {
+			harness.Class("damaged-still-consistent:"+string(c.Kind), 1)
+		}
+		subC06Accept.Check(rt, c)
+	})
 	harness.RapidCheck(t, harness.Scale(1500, 12000), 66, func(rt *rapid.T) {
 		c := genC06Bad(rt)
 		harness.Eval(subC06Bad.Name, 1)
